@@ -59,6 +59,11 @@ Section ListProofs.
     - inversion H; subst. apply Forall_rev. exact F.
     - inversion H; subst. apply Forall_sort. exact F.
     - inversion H; subst. constructor.
+    - destruct (vld v) as [y|] eqn:V; [|discriminate]. inversion H; subst.
+      apply Forall_insert; [eapply HP; exact V|exact F].
+    - inversion H as [[H1 H2]]. destruct (pop l _) as [[x l2]|] eqn:E; cbn in H1; [|discriminate].
+      inversion H1; subst. eapply Forall_pop; eassumption.
+    - inversion H; subst. apply Forall_imul. exact F.
   Qed.
 
   (* ... and has exactly the length the TraitListObject override announced *)
@@ -102,6 +107,11 @@ Section ListProofs.
     - inversion AN; subst. inversion H; subst. unfold zlen. rewrite rev_length. reflexivity.
     - inversion AN; subst. inversion H; subst. unfold zlen. rewrite sort_length. reflexivity.
     - inversion AN; subst. inversion H; subst. reflexivity.
+    - inversion AN; subst. destruct (vld v); [|discriminate]. inversion H; subst. apply insert_length.
+    - inversion AN; subst. inversion H as [[H1 H2]].
+      destruct (pop l _) as [[x l2]|] eqn:E; cbn in H1; [|discriminate]. inversion H1; subst.
+      pose proof (pop_length l l' _ x E). lia.
+    - discriminate AN.
   Qed.
 
   (* what a TraitList step leaves behind, read through C05's refinement theorem *)
@@ -110,7 +120,9 @@ Section ListProofs.
      exists l' r alt, builtin vld l o = (Ok (l', r), alt) /\ o_after (tl_step vld l o) = l') \/
     (exists e, o_out (tl_step vld l o) = Raise e /\ o_after (tl_step vld l o) = l /\ o_events (tl_step vld l o) = []).
   Proof.
-    destruct (step_refines vld l o) as (HO & HA & _). cbv zeta in *.
+    destruct (xkey o) eqn:X.
+    { right. destruct o; try discriminate X; exists TypeError; cbn; auto. }
+    destruct (step_refines vld l o X) as (HO & HA & _). cbv zeta in *.
     destruct (o_out (tl_step vld l o)) as [[]|e] eqn:EO.
     - left. split; [reflexivity|]. destruct (builtin vld l o) as [[[l' r]|e'] alt]; cbn in *; [|discriminate].
       exists l', r, alt. auto.
